@@ -26,7 +26,6 @@ Proof. destruct p; simpl; auto. Qed.
 Lemma size_neg p : size (neg p) = size p.
 Proof. destruct p; reflexivity. Qed.
 
-Definition upd (a : asg) (v : var) (b : bool) : asg := fun u => if N.eqb u v then b else a u.
 
 Lemma den_indep k p a a' :
   wfb k p -> (forall u, k <= level u -> a u = a' u) -> den p a = den p a'.
